@@ -4,6 +4,7 @@ build is closed (cases name categories, destinations are the ones passed in) and
 allocated identifier at most once.
 -/
 import Rpft.Lemmas.CompileInvA
+import Rpft.Lemmas.CompileExits
 set_option linter.unusedSimpArgs false
 set_option linter.unusedVariables false
 namespace Rpft.Compile
@@ -16,10 +17,6 @@ theorem Bump.zero (s : St) : Bump s s 0 := rfl
 
 /-- all destinations of a switch router satisfy `D` -/
 def SwD (D : Dest → Prop) (r : SwitchR) : Prop := ∀ c ∈ r.allCats, D c.dest
-
-theorem allCats_mapCats (r : SwitchR) (f : Cat → Cat) : (r.mapCats f).allCats = r.allCats.map f := by
-  unfold SwitchR.mapCats SwitchR.allCats
-  cases r.noResp <;> simp
 
 theorem ids_mapCats (r : SwitchR) (f : Cat → Cat) (hu : ∀ c, (f c).uid = c.uid)
     (he : ∀ c, (f c).exitUid = c.exitUid) : (r.mapCats f).ids = r.ids := by
